@@ -12,6 +12,7 @@ HERE = os.path.dirname(os.path.abspath(__file__))
 COQ_FILES = ["PIP/PipSpec.v", "PIP/PipTree.v", "PIP/PipRef.v", "PIP/PipCuts.v", "PIP/PipCert.v"]
 FUEL = 64
 MAX_DEATHS = 12          # timeouts per batch after which the rest of the batch is not run
+LONG_TMO = 20            # CPU seconds after which a solve is reported as not returning
 MAX_VIOLATIONS = 6       # enough to show the property is broken; the run stops attributing after that
 BIGVALS = [1000003, 1000004, 1000005, 1000006, 1000007, 1000000007]
 SITE_ROW_SIGN = "PIP_Solution_Node::row_sign/solve (PIP_Tree.cc)"
@@ -27,7 +28,14 @@ def build_tools(chk):
 # only to attribute a failure to the code a fix changes.  The row_sign and else-branch defects were repaired in /repo
 # (481d251, 7d069b5): a recurrence of either is an ordinary VIOLATION.  Still open: the third site of the
 # "non-positive taken for negative" defect (fix-8); remove the entry when that fix is committed.
-VARIANTS = {"nonstrict_negative_row": ["fix-8-unfeasible-needs-strictly-negative-row.diff"]}
+VARIANTS = {"nonstrict_negative_row": ["fix-8-unfeasible-needs-strictly-negative-row.diff"],
+            "incremental_artificial_parameters": ["fix-4-renumber-artificial-parameters.diff",
+                                                  "fix-5-artificial-parameter-definitions-in-context.diff"],
+            "incremental_all": ["fix-4-renumber-artificial-parameters.diff",
+                                "fix-5-artificial-parameter-definitions-in-context.diff",
+                                "fix-6-decision-node-keeps-test.diff"]}
+FRESH_VARIANTS = ["nonstrict_negative_row"]
+INCREMENTAL_VARIANTS = ["incremental_artificial_parameters", "incremental_all"]
 
 
 def private_harness(variant=None):
@@ -68,16 +76,27 @@ def private_harness(variant=None):
             # (corpus/C07/patch-*.diff): used ONLY to attribute a failure to the code a fix changes
             ph = hashlib.sha256(b"".join(open(os.path.join(common.VERIF, "corpus", "C07", q), "rb").read()
                                          for q in VARIANTS[variant])).hexdigest()[:8]
-            vdir = os.path.join(libdir, "variant-%s-%s" % (variant, ph)); os.makedirs(vdir, exist_ok=True)
+            vdir = os.path.join(libdir, "variant-%s-%s" % (variant, ph)); os.makedirs(os.path.join(vdir, "src"), exist_ok=True)
             obj = os.path.join(vdir, "PIP_Tree.o")
             if not os.path.exists(obj):
-                vc = os.path.join(vdir, "PIP_Tree.cc")
-                shutil.copy(os.path.join(common.REPO, "src", "PIP_Tree.cc"), vc)
+                import re
+                files = set(["PIP_Tree.cc"])
                 for q in VARIANTS[variant]:
-                    rc, out = common.sh(["patch", "-s", "-f", vc, os.path.join(common.VERIF, "corpus", "C07", q)], timeout=60)
+                    files |= set(re.findall(r"^\+\+\+ b/src/(\S+)", open(os.path.join(common.VERIF, "corpus", "C07", q)).read(), re.M))
+                # all PIP headers are copied next to the patched sources, so that every quoted include of a patched
+                # header (also from another PIP header) resolves to the patched copy
+                files |= set(os.path.basename(h) for h in glob.glob(os.path.join(common.REPO, "src", "PIP_*.hh")))
+                for fn in files:
+                    shutil.copy(os.path.join(common.REPO, "src", fn), os.path.join(vdir, "src", fn))
+                for q in VARIANTS[variant]:
+                    rc, out = common.sh(["patch", "-s", "-f", "-p1", "-d", vdir, "-i", os.path.join(common.VERIF, "corpus", "C07", q)], timeout=60)
                     if rc != 0:
                         raise common.BuildError("candidate fix %s no longer applies:\n%s" % (q, out[-500:]))
-                rc, out = common.sh(["g++"] + common.cxx_flags(libdir, True) + ["-fPIC", "-c", vc, "-o", obj + ".tmp"], timeout=600)
+                if [f for f in files if f.endswith(".cc") and f != "PIP_Tree.cc"]:
+                    raise common.BuildError("variant %s touches other translation units: %s" % (variant, sorted(files)))
+                fl = common.cxx_flags(libdir, True)
+                fl = [fl[0], fl[1], "-I" + os.path.join(vdir, "src")] + fl[2:]
+                rc, out = common.sh(["g++"] + fl + ["-fPIC", "-c", os.path.join(vdir, "src", "PIP_Tree.cc"), "-o", obj + ".tmp"], timeout=600)
                 if rc != 0:
                     raise common.BuildError("variant %s failed to compile:\n%s" % (variant, out[-3000:]))
                 os.rename(obj + ".tmp", obj)
@@ -184,6 +203,12 @@ def evaluate(exe, judge, cases, bound, tmo=4, fuel=FUEL, judge_timeout=1500, per
     """cases: list of (cid, ops). Returns list of step verdicts:
        dict(cid, step, ops, snap, kind=None|<failure kind>, detail, judge=<json or None>)."""
     hres = run_harness(exe, cases, tmo)
+    # a case that exceeded the (short) CPU limit is run again, alone, with a long one: only a run that does not
+    # return within LONG_TMO CPU seconds is reported as "does not return"
+    if tmo < LONG_TMO:
+        slow = [(cid, ops) for cid, ops in cases if any(st["status"] == "TIMEOUT" for st in hres.get(cid, []))]
+        for cid, ops in slow[:MAX_DEATHS]:
+            hres[cid] = run_harness(exe, [(cid, ops)], LONG_TMO)[cid]
     lines = []; meta = {}
     verdicts = []
     for cid, ops in cases:
@@ -310,7 +335,8 @@ def attribute(v, T, bound):
                                        before the failing re-solve contained (the two open incremental defects need one of them)
       vanishes_with_patch = X          the failure disappears when candidate fix X (VARIANTS) is applied to a copy of PIP_Tree.cc
       terminates_under_another_strategy_setting   a timeout that does not occur under another CUTTING x PIVOT setting
-      big_parameter / answer_not_affine_in_big_parameter   (judge) the exact answer is not affine in the big parameter"""
+      big_parameter / answer_not_affine_in_big_parameter   (judge) the exact answer is not affine in the big parameter
+      artificial_parameter_depends_on_big_parameter        (judge) the returned tree cuts on the big parameter"""
     info = {"kind": v["kind"]}
     pre = ops_before_step(v["ops"], v["step"])
     seen_solve = False
@@ -339,6 +365,36 @@ def attribute(v, T, bound):
             for t in v.get("earlier_trees", []):
                 a, d = tree_features(t); arts |= a; two |= d
             info["resolved_tree_had"] = ("artificial_parameters" if arts else "two_way_decision" if two else "neither")
+            # the failure is attributed to the open incremental defects only if it disappears when their candidate
+            # fixes are applied to the tree under test (any other incremental failure is a new defect)
+            for name in INCREMENTAL_VARIANTS:
+                exe = T.variant(name)
+                if exe is None:
+                    continue
+                pv = [w for w in evaluate(exe, T.judge, [("var", v["ops"])], bound) if w["step"] == v["step"]]
+                if pv and pv[0]["kind"] is None:
+                    info["vanishes_with_patch"] = name
+                    break
+            if "vanishes_with_patch" not in info:
+                if v["kind"] == "timeout":
+                    # the strategy-dependent non-termination, met on the incremental path: does the same history
+                    # return under another CUTTING x PIVOT setting?
+                    other = False
+                    for cut in (0, 1, 2):
+                        for piv in (3, 4):
+                            if other:
+                                continue
+                            ops2 = [(["ctl", cut] if (o[0] == "ctl" and o[1] < 3) else (["ctl", piv] if o[0] == "ctl" else o)) for o in v["ops"]]
+                            if ops2 == v["ops"]:
+                                continue
+                            pv = [w for w in evaluate(T.exe, T.judge, [("alt", ops2)], bound, tmo=LONG_TMO) if w["step"] == v["step"]]
+                            if pv and pv[0]["kind"] != "timeout":
+                                other = True
+                    info["terminates_under_another_strategy_setting"] = other
+                if v["snap"]["big"] >= 0:
+                    info["big_parameter"] = True
+                    info["answer_not_affine_in_big_parameter"] = bool((v.get("judge") or {}).get("big_nonaffine"))
+                    info["artificial_parameter_depends_on_big_parameter"] = bool((v.get("judge") or {}).get("big_in_arts"))
             return info
         info["incremental_only"] = False
         cur = fv; info["fresh_kind"] = fv["kind"]
@@ -351,11 +407,11 @@ def attribute(v, T, bound):
                 if [cut, piv] == list(cur["snap"]["ctl"]) or other:
                     continue
                 sn = dict(cur["snap"]); sn["ctl"] = [cut, piv]
-                pv = evaluate(T.exe, T.judge, [("alt", fresh_case(sn))], bound)[0]
+                pv = evaluate(T.exe, T.judge, [("alt", fresh_case(sn))], bound, tmo=LONG_TMO)[0]
                 if pv["kind"] != "timeout":
                     other = True
         info["terminates_under_another_strategy_setting"] = other
-    for name in sorted(VARIANTS):
+    for name in FRESH_VARIANTS:
         exe = T.variant(name)
         if exe is None:
             continue
@@ -366,6 +422,7 @@ def attribute(v, T, bound):
     if cur["snap"]["big"] >= 0:
         info["big_parameter"] = True
         info["answer_not_affine_in_big_parameter"] = bool((cur.get("judge") or {}).get("big_nonaffine"))
+        info["artificial_parameter_depends_on_big_parameter"] = bool((cur.get("judge") or {}).get("big_in_arts"))
     if cur["kind"] == "malformed":
         info["what"] = cur["detail"]
     return info
